@@ -397,6 +397,9 @@ class ResNetwork(GeoNetwork):
         # a sparse matrix for the admittance values
         self.sparse_R = sparse.lil_matrix(
             np.linalg.pinv(self.admittance_lapacian()))
+        # effective resistances memoised by average_effective_resistance()
+        # belong to the previous R
+        self._effective_resistances = None
 
     def get_R(self):
         """Return the pseudo inverse of of the admittance Laplacian
